@@ -227,7 +227,8 @@ func fieldCount(s *seed) int {
 
 // sweepField runs the family for one (codec, seed, field).
 func (w *worker) sweepField(c *codec, s *seed, fi int, resumeAfter int, only *uint64) {
-	probe := leaves(s.gen())
+	var probe []leaf
+	safely(func() { probe = leaves(s.gen()) })
 	if fi >= len(probe) {
 		return
 	}
@@ -253,8 +254,9 @@ func (w *worker) sweepField(c *codec, s *seed, fi int, resumeAfter int, only *ui
 		}
 		w.progress(ord)
 		w.res.Triples++
-		v := s.gen()
-		ls := leaves(v)
+		var v any
+		var ls []leaf
+		safely(func() { v = s.gen(); ls = leaves(v) })
 		if fi >= len(ls) || ls[fi].path != lf0.path {
 			w.res.Outcomes["field:path-unstable"]++
 			continue
